@@ -161,6 +161,14 @@ inline std::string observe_tables(wm::World& w)
         for (auto tid : tids)
             out += p + "entity_get(" + std::to_string(tid) + ") = " + guarded_text([&](std::ostream& os) { auto e = pe.get(id, tid); os << (e ? std::to_string(e->id) : "<none>"); }) + "\n";
     }
+    // the change log (2.x before 2.20.3 only: the accessor itself refuses later schemas, which is an answer like any other)
+    out += "change_log = " + guarded_text([&](std::ostream& os) {
+               auto cl = w.lib2->change_log();
+               for (auto& r : cl.all()) os << r.id << ":" << r.track_id << " ";
+               auto l = cl.last();
+               os << "| last " << (l ? std::to_string(l->id) + ":" + std::to_string(l->track_id) : std::string("<none>")) << " | after(1)";
+               for (auto& r : cl.after(1)) os << " " << r.id << ":" << r.track_id;
+           }) + "\n";
     return out;
 }
 }  // namespace v2o
